@@ -5,7 +5,7 @@
      idpOpenIDCUserinfoHandler        -> Tokens.c_userinfo
    and the whole token life cycle as a history of operations against a server that keeps no
    token state (every artefact is a self-contained signed token): exec / valid.
-   External facts carried in the requests: whom checkAuth admitted (C01/C06), whether the
+   External facts carried in the requests: whom checkAuth authenticated (C01/C06), whether the
    redirect URI passed CanRedirectToURL (C13), whether the requested audience was allowed,
    BASE64URL(SHA256(verifier)) (crypto/sha256), credentials after url.QueryUnescape. *)
 From Coq Require Import String ZArith NArith List Bool.
@@ -48,7 +48,7 @@ Definition gt_authcode : bs := b "authorization_code".
 
 Definition nonempty (s : bs) : bool := match s with [] => false | _ => true end.
 
-(* [user] is whom checkAuth admitted.  None = 4xx, nothing is minted. *)
+(* [user] is whom checkAuth authenticated.  None = 4xx, nothing is minted. *)
 Definition authorize (i : idp) (now : Z) (user : bs) (r : areq) : option token :=
   if negb (ar_method_ok r) then None
   else if negb (bs_eqb (ar_response_type r) rt_code) then None
@@ -136,7 +136,7 @@ Inductive op :=
 | OLogin (now : Z) (user : bs) (level : Z)                 (* any path ending in setNewAuthCookie *)
 | OCliToken (now : Z) (user : bs) (life : Z)               (* ShowAuthTokenHandler *)
 | OUpsert (now : Z) (user : bs) (dtype : Z) (data : bs) (exp : Z)
-| OAuthorize (now : Z) (user : bs) (r : areq)              (* user = whom checkAuth admitted *)
+| OAuthorize (now : Z) (user : bs) (r : areq)              (* user = whom checkAuth authenticated *)
 | OToken (now : Z) (r : treq)
 | OUserinfo (now : Z) (t : token)
 | OSession (now : Z) (required : Z) (t : token)
